@@ -1,3 +1,7 @@
 // Package nharness holds the harnesses that run natively (no rewriting): the
 // real SSH server and client over loopback.
 package nharness
+
+import "encoding/json"
+
+func jsonUnmarshal(b []byte, v interface{}) error { return json.Unmarshal(b, v) }
